@@ -9,30 +9,34 @@ class ListFile:
     """readline()-only file object over a list of lines (strings or SymStr, no newline
     inside).  Used in the engine; the pristine worker uses io.StringIO on the same text."""
 
-    def __init__(self, lines):
+    def __init__(self, lines, final_newline=True):
         self.lines = list(lines)
         self.i = 0
         self.closed = False
+        self.final_newline = final_newline
+
+    def _nl(self, i):
+        return '\n' if (self.final_newline or i < len(self.lines) - 1) else ''
 
     def readline(self):
         if self.i < len(self.lines):
             l = self.lines[self.i]
             self.i += 1
-            return l + '\n'
+            return l + self._nl(self.i - 1)
         return ''
 
     # the other reading styles a file object offers (a changed tree may use them)
     def read(self, size=-1):
         out = ''
         while self.i < len(self.lines):
-            out = out + self.lines[self.i] + '\n'
+            out = out + self.lines[self.i] + self._nl(self.i)
             self.i += 1
         return out
 
     def readlines(self):
         out = []
         while self.i < len(self.lines):
-            out.append(self.lines[self.i] + '\n')
+            out.append(self.lines[self.i] + self._nl(self.i))
             self.i += 1
         return out
 
@@ -52,10 +56,13 @@ class ListFile:
         return False
 
 
-def make_file(lines):
+def make_file(lines, final_newline=True):
     if all(isinstance(l, str) for l in lines):
-        return io.StringIO(''.join(l + '\n' for l in lines))
-    return ListFile(lines)
+        text = ''.join(l + '\n' for l in lines)
+        if not final_newline and text:
+            text = text[:-1]
+        return io.StringIO(text)
+    return ListFile(lines, final_newline)
 
 
 def no_newline(c, i):
